@@ -1237,7 +1237,10 @@ impl World {
                         // rewritten (C05 asks for the value, C06 counts rewrites that happened)
                         let no_rewrite_needed = a.1 == b.1 && a.0 == b.0 && mask_unrecorded(&val) == mask_unrecorded(&b.0);
                         if self.cfg.check_c06 && a.1 != b.1 + 1 && !no_rewrite_needed {
-                            self.violation(format!("c06:id-not-plus-one:{:?}", k.0), format!("{k:?} was affected and its reload succeeds, reload id went {} -> {}", b.1, a.1));
+                            // two different clauses: the id must GROW with a rewrite (watchers, C05/C06/C14), and
+                            // it grows BY ONE (C06 only: judged under C06, filtered out elsewhere)
+                            let key = if a.1 > b.1 { "c06:id-jump" } else { "c06:id-not-plus-one" };
+                            self.violation(format!("{key}:{:?}", k.0), format!("{k:?} was affected and its reload succeeds, reload id went {} -> {}", b.1, a.1));
                         }
                         // possible extra dependencies through non-reloadable entries created in this pass
                         let unpin: BTreeSet<Key> = newly.iter().filter(|x| !x.0.reloadable()).cloned().collect();
